@@ -1101,7 +1101,7 @@ mutant("c15-min-with-min", "C15", "C15-D1", "backoff.go",
 mutant("c15-two-durations-per-attempt", "C15", "C15-D2", "client_manager_conn.go",
        "	delay := m.backoff.duration()\n", "	delay := m.backoff.duration()\n	if delay < time.Millisecond {\n		delay = m.backoff.duration()\n	}\n")
 mutant("c15-volatile-branches-swapped", "C15", "C15-D3", "client_socket.go",
-       "		} else if !volatile {\n			s.sendBufferMu.Lock()", "		} else if volatile {\n			s.sendBufferMu.Lock()")
+       "		} else if !volatile {\n			buffers := make([]sendBufferItem", "		} else if volatile {\n			buffers := make([]sendBufferItem")
 mutant("c15-flush-without-clear", "C15", "C15-D3", "client_socket.go",
        "		s.manager.packet(packets...)\n		s.sendBuffer = nil\n", "		s.manager.packet(packets...)\n")
 mutant("c15-early-return-in-replay", "C15", "C15-D3", "client_socket.go",
@@ -1214,14 +1214,9 @@ func (m *Manager) anySocketConnected() bool {
 	return false
 }""")
 mutant("c16-sendbuffer-under-wrong-mutex", "C16", "C16-D1", "client_socket.go",
-       """			s.sendBufferMu.Lock()
-			buffers := make([]sendBufferItem, len(packets))""",
-       """			s.receiveBufferMu.Lock()
-			defer s.receiveBufferMu.Unlock()
-			s.sendBufferMu.Lock()
-			s.sendBufferMu.Unlock()
-			s.sendBufferMu.Lock()
-			buffers := make([]sendBufferItem, len(packets))""".replace("			s.sendBufferMu.Lock()\n			s.sendBufferMu.Unlock()\n			s.sendBufferMu.Lock()\n", "") )
+       "		} else if !volatile {\n			buffers := make([]sendBufferItem, len(packets))",
+       "		} else if !volatile {\n			s.sendBufferMu.Unlock()\n			s.receiveBufferMu.Lock()\n			buffers := make([]sendBufferItem, len(packets))")
+MUTANTS[-1]["then"] = ("			s.sendBuffer = append(s.sendBuffer, buffers...)\n			s.sendBufferMu.Unlock()\n", "			s.sendBuffer = append(s.sendBuffer, buffers...)\n			s.receiveBufferMu.Unlock()\n")
 mutant("c16-middleware-under-lock", "C16", "C16-D3", "middleware.go",
        """	s.middlewareFuncsMu.RLock()
 	funcs := slices.Clone(s.middlewareFuncs)
@@ -2439,3 +2434,23 @@ mutant("c08-f60-recovered-only-ever-set", "C08", "C08-D5", "client_socket.go",
 		s.setRecovered(true)
 	}
 """)
+
+# F56 (repaired late: b9929d6)
+mutant("c05-f56-send-while-connect-pending", "C05", "C05-D12", "client_socket.go",
+       "		connected := s.state == clientSocketConnStateConnected\n",
+       "		connected := s.state == clientSocketConnStateConnected || s.state == clientSocketConnStateConnectPending\n")
+mutant("c02-f56-buffer-cleared-not-sent", "C02", "C02-D1", "client_socket.go",
+       "				s.sendBuffer = nil\n				packets = append(buffered, packets...)\n",
+       "				s.sendBuffer = nil\n")
+mutant("c02-f56-older-frames-after-the-new-packet", "C02", "C02-D1", "client_socket.go",
+       "				packets = append(buffered, packets...)\n",
+       "				packets = append(packets, buffered...)\n")
+mutant("c15-f56-state-read-before-the-buffer-lock", "C15", "C15-D6", "client_socket.go",
+       "		s.sendBufferMu.Lock()\n		s.stateMu.RLock()\n		connected := s.state == clientSocketConnStateConnected\n		s.stateMu.RUnlock()\n",
+       "		s.stateMu.RLock()\n		connected := s.state == clientSocketConnStateConnected\n		s.stateMu.RUnlock()\n		s.sendBufferMu.Lock()\n")
+mutant("c01-f56-state-read-before-the-buffer-lock", "C01", "C01-D12", "client_socket.go",
+       "		s.sendBufferMu.Lock()\n		s.stateMu.RLock()\n		connected := s.state == clientSocketConnStateConnected\n		s.stateMu.RUnlock()\n",
+       "		s.stateMu.RLock()\n		connected := s.state == clientSocketConnStateConnected\n		s.stateMu.RUnlock()\n		s.sendBufferMu.Lock()\n")
+mutant("c05-f56-two-enqueues-on-one-path", "C05", "C05-D9", "client_socket.go",
+       "		if forceSend {\n			s.manager.packet(packets...)\n			return\n		}\n",
+       "		if forceSend {\n			s.manager.packet(packets...)\n		}\n")
